@@ -51,6 +51,7 @@ type pipeRig struct {
 	stageMu  sync.Mutex
 	stageLog []string
 	gate     *gateCtl
+	carry    []string // events published to subscribers of a server that was abandoned since
 }
 
 func newPipeRig(file string, netID uint, nonceCheckOff bool) (*pipeRig, error) {
@@ -63,9 +64,6 @@ func newPipeRig(file string, netID uint, nonceCheckOff bool) (*pipeRig, error) {
 }
 
 func (r *pipeRig) stage(event, key string) {
-	if r.gate != nil {
-		r.gate.stage(event, key)
-	}
 	d := int64(0)
 	switch event {
 	case "decoder.reject", "decrypter.done", "join.done", "sched.dup", "sendat.done", "encoder.done":
@@ -80,6 +78,10 @@ func (r *pipeRig) stage(event, key string) {
 			default:
 			}
 		}
+	}
+	// only now tell the controller (it re-reads the counter when woken)
+	if r.gate != nil {
+		r.gate.stage(event, key)
 	}
 }
 
@@ -126,6 +128,13 @@ func (r *pipeRig) deliver(p server.GatewayPacket) error {
 	return r.waitQuiet(10 * time.Second)
 }
 
+// inject (controlled mode) injects a frame and returns once everything in flight is parked.
+func (r *pipeRig) inject(p server.GatewayPacket) error {
+	atomic.AddInt64(&r.inflight, 1)
+	r.fwd.out <- p
+	return r.waitStable(10 * time.Second)
+}
+
 func (r *pipeRig) waitQuiet(timeout time.Duration) error {
 	t := time.NewTimer(timeout)
 	defer t.Stop()
@@ -157,7 +166,8 @@ func (r *pipeRig) takeEmitted() []server.GatewayPacket {
 }
 
 func (r *pipeRig) takePublished() []string {
-	var out []string
+	out := r.carry
+	r.carry = nil
 	for app, ch := range r.subs {
 		for {
 			select {
@@ -240,6 +250,9 @@ func (r *pipeRig) stateText(devs []protocol.EUI) (string, error) {
 		el = append(el, fmt.Sprintf("E %s gw=%s delay=%d clock=%d dr=%s", hx.H(p.RawMessage), hx.H(p.Gateway.GatewayEUI.Octets[:]), p.Radio.RX1Delay,
 			p.Gateway.GatewayClock, p.Radio.DataRate))
 	}
+	// within one event at most one frame per device leaves; frames for different devices are
+	// encoded by independent goroutines, so their order is not defined: canonical order
+	sort.Strings(el)
 	return fmt.Sprintf("devices=%s inbox=%s outbox=%s emitted=%s published=%s", joinLines(dl), joinLines(il), joinLines(ol), joinLines(el), joinLines(r.takePublished())), nil
 }
 
